@@ -2,14 +2,17 @@
 harness/parsecorr.py is also put to the op `body_parse` (lean/ICal/Driver/BodiesParse.lean), which runs the
 definition that tools/py2lean.py regenerates from cal.py on every run (lean/ICal/Gen/BodiesParse.lean) with the
 external pieces of lean/ICal/Model/ParsePieces.lean - same arguments (multiple, decoder table, text), same expected
-answer (trees and error log of the real Component.from_ical, or err:ValueError)."""
+answer (trees and error log of the real Component.from_ical, or err:ValueError).
+With `ser=True` every `ser` case (Component.to_ical) is also put to the op `body_ser` (lean/ICal/Driver/BodiesSerLines.lean:
+the regenerated to_ical / content_lines / content_line / property_items with the pieces of lean/ICal/Model/SerPieces.lean)."""
 
 
 class Both:
     """a view of the check's context whose corr() registers a `parse` case for the op `body_parse` as well"""
 
-    def __init__(self, ctx):
+    def __init__(self, ctx, ser=False):
         self._ctx = ctx
+        self._ser = ser
 
     def __getattr__(self, name):
         return getattr(self._ctx, name)
@@ -18,3 +21,5 @@ class Both:
         self._ctx.corr(op, args, impl, nontrivial)
         if op == 'parse':
             self._ctx.corr('body_parse', args, impl, nontrivial)
+        if op == 'ser' and self._ser:
+            self._ctx.corr('body_ser', args, impl, nontrivial)
